@@ -345,3 +345,66 @@ Proof.
   destruct (break_total prefix nf nc out) as [ps H]. exists ps. split; [exact H|].
   eapply break_lossless. exact H.
 Qed.
+
+(* ---- no placeholder survives / references resolve ---- *)
+
+Lemma broken_interior prefix nf nc ps : broken prefix nf nc ps ->
+  Forall (fun p => occurs prefix (pdata p) = false /\ is_ref (pkind p) = true /\
+                   0 <= pidx p /\ (pkind p = 1 -> pidx p < nf) /\ (pkind p = 2 -> pidx p < nc)) (removelast ps)
+  /\ pkind (last ps (mkPiece [] 0 0)) = 0.
+Proof.
+  induction 1 as [d|d k i r Ho Hk Hi H1 H2 Hr [IH1 IH2]].
+  - split; [constructor|reflexivity].
+  - assert (r <> []) by (destruct Hr; discriminate).
+    split.
+    + destruct r as [|q r]; [congruence|]. cbn [removelast]. constructor; [|exact IH1].
+      cbn. repeat split; try assumption; lia.
+    + destruct r as [|q r]; [congruence|]. exact IH2.
+Qed.
+
+(* an occurrence of the prefix that lies entirely inside [d] is an occurrence in [d] *)
+Lemma is_prefix_inside p : forall d b j, (j + length p <= length d)%nat ->
+  is_prefix p (skipn j (d ++ b)) = true -> is_prefix p (skipn j d) = true.
+Proof.
+  intros d b j Hj H. rewrite skipn_app in H.
+  replace (j - length d)%nat with O in H by lia. cbn [skipn] in H.
+  apply is_prefix_iff in H as [t Ht]. apply is_prefix_iff.
+  assert (L : (length p <= length (skipn j d))%nat) by (rewrite skipn_length; lia).
+  exists (skipn (length p) (skipn j d)).
+  rewrite <- (firstn_skipn (length p) (skipn j d)) at 1. f_equal.
+  assert (E : firstn (length p) (skipn j d ++ b) = firstn (length p) (p ++ t)) by (rewrite Ht; reflexivity).
+  rewrite firstn_app in E. replace (length p - length (skipn j d))%nat with O in E by lia.
+  cbn [firstn] in E. rewrite app_nil_r in E. rewrite E.
+  rewrite firstn_app, firstn_all, Nat.sub_diag. cbn. apply app_nil_r.
+Qed.
+
+Lemma occurs_of_is_prefix p : forall d j, is_prefix p (skipn j d) = true -> (j <= length d)%nat -> occurs p d = true.
+Proof.
+  intros d j H Hj. unfold occurs.
+  destruct (index_of p d) as [b|] eqn:E; [reflexivity|].
+  pose proof (index_of_none p d E j). congruence.
+Qed.
+
+(* no occurrence of the prefix in the substituted output lies inside a data
+   piece other than the last one *)
+Lemma no_key_inside_interior_data prefix nf nc pathOf ps : broken prefix nf nc ps ->
+  forall pre p rest, ps = pre ++ p :: rest -> rest <> [] ->
+  forall k, (length (substitute pathOf pre) <= k)%nat ->
+    (k + length prefix <= length (substitute pathOf pre) + length (pdata p))%nat ->
+    is_prefix prefix (skipn k (substitute pathOf ps)) = false.
+Proof.
+  intros Hb pre p rest E Hr k H1 H2.
+  destruct (broken_interior _ _ _ _ Hb) as [F _].
+  assert (Hp : occurs prefix (pdata p) = false).
+  { subst ps. rewrite Forall_forall in F. apply F.
+    clear - Hr. induction pre as [|a pre IH]; cbn [app].
+    - destruct rest; [congruence|]. left; reflexivity.
+    - destruct (pre ++ p :: rest) eqn:E; [destruct pre; discriminate|]. right. exact IH. }
+  destruct (is_prefix prefix (skipn k (substitute pathOf ps))) eqn:Ei; [|reflexivity]. exfalso.
+  assert (Es : substitute pathOf ps = substitute pathOf pre ++ pdata p ++
+            ((if is_ref (pkind p) then pathOf (pkind p) (pidx p) else []) ++ substitute pathOf rest)).
+  { subst ps. clear. induction pre as [|a pre IH]; cbn [app substitute]; [reflexivity|]. rewrite IH, <- !app_assoc. reflexivity. }
+  rewrite Es in Ei. rewrite skipn_app in Ei. rewrite skipn_all2 in Ei by lia. cbn [app] in Ei.
+  apply is_prefix_inside in Ei; [|lia].
+  apply occurs_of_is_prefix in Ei; [congruence|lia].
+Qed.
